@@ -223,11 +223,14 @@ class FakeTime(object):
 
 
 class Sched(object):
-  def __init__(self, switches=(), trace_files=(), max_steps=60000, start=0.0):
+  def __init__(self, switches=(), trace_files=(), max_steps=60000, start=0.0, opcode_files=()):
     self.switch_at = {}
     for step, choice in switches:
       self.switch_at[int(step)] = int(choice)
     self.trace_files = set(os.path.abspath(f) for f in trace_files)
+    # files in which every bytecode instruction (not only every line) is a scheduling point: read-modify-write
+    # statements such as `self.size -= len(x)` can then be torn apart, as the interpreter may do after the call
+    self.opcode_files = set(os.path.abspath(f) for f in opcode_files)
     self.max_steps = max_steps
     self.now = float(start)
     self.threads = []
@@ -259,7 +262,11 @@ class Sched(object):
 
   # -- tracing ------------------------------------------------------------------
   def _global_trace(self, frame, event, arg):
-    if frame.f_code.co_filename in self.trace_files:
+    fn = frame.f_code.co_filename
+    if fn in self.opcode_files:
+      frame.f_trace_opcodes = True
+      return self._opcode_trace
+    if fn in self.trace_files:
       return self._local_trace
     return None
 
@@ -267,6 +274,11 @@ class Sched(object):
     if event == 'line':
       self.point('line')
     return self._local_trace
+
+  def _opcode_trace(self, frame, event, arg):
+    if event == 'opcode':
+      self.point('opcode')
+    return self._opcode_trace
 
   # -- running ------------------------------------------------------------------
   def run(self, first=0):
